@@ -54,6 +54,18 @@ def oracle(ctx):
             cap = kind[2] if kind[0] == "g" else 10 ** 9
             if cap >= p.low_threshold and any(d < p.low_threshold for d in distinct) and not low:
                 ctx.oracle_fail(f"entity counter: group with {distinct} distinct entities per id column (low_threshold {p.low_threshold}, cap {cap}) not suppressed", case, "floor")
+            # set semantics, stated through the public rule: below the cap the counter must answer what is_low_count answers on the
+            # true per-column sets of distinct non-null ids (count and xor of the set)
+            if kind[0] == "g" and all(d < cap for d in distinct):
+                trackers = []
+                for d in range(kind[1]):
+                    Sd = {r[d] for r in rows} - {0}
+                    x = 0
+                    for v in Sd: x ^= v
+                    trackers.append((len(Sd), U64(x)))
+                want = A.is_low_count(salt, p, trackers)
+                if want != low:
+                    ctx.oracle_fail(f"entity counter answers {low} but the rule on the distinct non-null id sets ({distinct} per column) answers {want}", case, "set-semantics")
             if R.random() < 0.35:
                 # set semantics: shuffle, duplicate, null rows
                 rows2 = rows[:]; R.shuffle(rows2)
